@@ -1,8 +1,8 @@
 PROP = dict(
-  units=['scq:enq_c1_f1,enq_c2_f1,deq_c1_f1,deq_c2_f1,enq_c1_f1_anygap,deq_c1_f1_anygap,enq_c2_f1_anygap,deq_c2_f1_anygap,catchup_f1,finalize', 'ram', 'msq', 'pqt', 'kbq:slot_word,dtor,push_null,push_k1_s123,push_k2_s123,pop_k2_s123,push_int,pop_int,init', 'kfq', 'vbq', 'nbq', 'nq'],
+  units=['scq:enq_c1_f1,enq_c2_f1,deq_c1_f1,deq_c2_f1,enq_c1_f1_anygap,deq_c1_f1_anygap,enq_c2_f1_anygap,deq_c2_f1_anygap,catchup_f1,finalize', 'ram', 'msq', 'pqt', 'kbq:slot_word,pop_optional,dtor,push_null,push_k1_s123,push_k2_s123,pop_k2_s123,push_int,pop_int,init', 'kfq', 'vbq', 'nbq', 'nq'],
   level='other',
   strict_obligations=True,
-  obligations=['kbq.slot.any_pointer', 'kfq.slot.any_pointer', 'scq.enqueue.finalized_fails', 'scq.enqueue.appends', 'scq.catchup.keeps_finalized', 'scq.finalize.sets',
+  obligations=['kbq.slot.any_pointer', 'kfq.slot.any_pointer', 'kbq.pop_optional.same_as_try_pop', 'kfq.pop_optional.same_as_try_pop', 'scq.enqueue.finalized_fails', 'scq.enqueue.appends', 'scq.catchup.keeps_finalized', 'scq.finalize.sets',
                'ram.node_dtor.owned_only', 'ram.dtor.each_node_once', 'ram.push.accepts_once', 'ram.push.rollback', 'ram.push.throw_keeps_value', 'ram.pop.hands_over_once', 'ram.push.null_rejected', 'msq.push.owns', 'msq.pop.owns', 'msq.dtor.owns', 'msq.T.lifecycle', 'pqt.*', 'kbq.dtor.each_once', 'kbq.push.reject', 'kbq.push.stores', 'kfq.delete_remaining.each_once', 'kfq.dtor.each_once', 'kfq.dtor.segments_released', 'kfq.retire.once_empty', 'kfq.push.stores', 'kfq.push.validate', 'kbq.push.validate',
                'vbq.dtor.owns', 'vbq.cell.lifetime', 'vbq.push.accepted_owned', 'vbq.push.rejected_stays_with_caller', 'vbq.pop.destroys_once', 'vbq.pop.lambda_contract',
                'vbq.pop.commit', 'vbq.push.commit',
